@@ -14,7 +14,6 @@ VARIABLES tid, ix
 trvars == <<tvars, tid, ix>>
 Tr == Traces[tid]
 Ev == Tr.events[ix]
-Last(s) == s[Len(s)]
 
 TrInit == /\ tid \in 1..Len(Traces) /\ ix = 1
           /\ prog = Traces[tid].prog /\ ictx = Traces[tid].ictx /\ idata = Traces[tid].idata
